@@ -1032,6 +1032,9 @@ class mulgrid(object):
                     for con in swapcons:
                         col.connection.remove(con)
                         col2.connection.add(con)
+                    # the swapped connections now join other columns: rebuild connection dictionary
+                    self.connection = dict([(tuple([c.name for c in con.column]), con)
+                                            for con in self.connectionlist])
                     for c in swapnbrs:
                         col.neighbour.remove(c)
                         c.neighbour.remove(col)
